@@ -274,6 +274,31 @@ fn reductions(c: &AstCase) -> Vec<AstCase> {
             Factor::N { name, .. } => alt[i] = Factor::N { name, ann: Ann::default() },
         }));
     }
+    // token indices of the inputs refer to `grammar.terms()`: re-index them for the reduced grammar
+    // and drop inputs that use a terminal which no longer exists
+    let old_terms = c.grammar.terms();
+    for n in out.iter_mut() {
+        let new_terms = n.grammar.terms();
+        if new_terms.len() == old_terms.len() && new_terms.iter().zip(&old_terms).all(|(a, b)| a.identity() == b.identity()) {
+            continue;
+        }
+        let map: Vec<Option<usize>> = old_terms.iter().map(|t| new_terms.iter().position(|x| x.identity() == t.identity())).collect();
+        n.inputs = n
+            .inputs
+            .iter()
+            .filter_map(|i| {
+                let toks: Option<Vec<InTok>> = i
+                    .toks
+                    .iter()
+                    .map(|t| match t {
+                        InTok::T(k) => map.get(*k).copied().flatten().map(InTok::T),
+                        InTok::Foreign => Some(InTok::Foreign),
+                    })
+                    .collect();
+                toks.map(|toks| Input { toks, seps: i.seps.clone() })
+            })
+            .collect();
+    }
     out.retain(|n| n.grammar != c.grammar || n.trim != c.trim || n.minimize != c.minimize || n.range != c.range || n.inputs.len() != c.inputs.len());
     out
 }
